@@ -431,7 +431,9 @@ class State(object):
         self.heap = heap if heap is not None else {}
 
     def copy(self):
-        return State(dict(self.vars), dict(self.heap))
+        # python lists are mutable values (append / item assignment): forked states must not share them
+        vs = {k: (list(v) if type(v) is list else v) for k, v in self.vars.items()}
+        return State(vs, dict(self.heap))
 
     # --- heap helpers -----------------------------------------------------------------------
     def alloc(self, data, n, name, local=True, fin=None):
